@@ -196,12 +196,11 @@ class GaussianART(BaseART):
             New cluster weight.
 
         """
-        sigma2 = np.multiply(params["sigma_init"], params["sigma_init"])
+        sigma_init = np.asarray(params["sigma_init"], dtype=float)
+        sigma2 = np.multiply(sigma_init, sigma_init)
         inv_sig_init = 1 / sigma2
         det_sig_init = np.sqrt(np.prod(sigma2))
-        return np.concatenate(
-            [i, params["sigma_init"], inv_sig_init, [det_sig_init], [1.0]]
-        )
+        return np.concatenate([i, sigma_init, inv_sig_init, [det_sig_init], [1.0]])
 
     def get_cluster_centers(self) -> List[np.ndarray]:
         """Get the centers of each cluster, used for regression.
